@@ -1,3 +1,4 @@
+import XPathV.Lemmas.Pull2Gen.NonVacuity
 import XPathV.Theorems.C12
 import XPathV.Theorems.NonVacuity.Common
 import XPathV.Theorems.NonVacuity.C02
